@@ -90,9 +90,11 @@ func checkC12(c *Ctx) {
 	c.R.Min("R-snapshot", 10)
 	c.R.Min("R-atomic-replace", 7)
 	c.R.Min("R-order", 2)
-	if len(names) < 10 {
-		c.R.Break("discovered %d registry fields (%v), expected at least 10", len(names), names)
+	published := c12PublishedTables(c)
+	if len(names)+published < 10 {
+		c.R.Break("discovered %d registry fields (%v) and %d copy-on-write tables, expected at least 10", len(names), names, published)
 	}
+	c12RowsUnconditional(c)
 
 	c12OneRegistry(c, ri.owners)
 	c12NoLockAcrossHandler(c, ri)
@@ -770,4 +772,128 @@ func holdsMemberOf(c *Ctx, T, M *types.Named) bool {
 		}
 	}
 	return false
+}
+
+// c12PublishedTables (R-published-immutable): a table kept copy-on-write — published through an atomic.Value or
+// atomic.Pointer member and read without a lock — must never be changed in place: every update builds a new map and
+// stores it. A map obtained from Load() is therefore never the operand of a map update or delete. Returns the number
+// of such members found.
+func c12PublishedTables(c *Ctx) int {
+	members := map[string]bool{}
+	fromLoad := func(v ssa.Value) (string, bool) {
+		for i := 0; i < 8 && v != nil; i++ {
+			switch x := v.(type) {
+			case *ssa.TypeAssert:
+				v = x.X
+			case *ssa.Extract:
+				v = x.Tuple
+			case *ssa.UnOp:
+				v = x.X // *p of an atomic.Pointer[map] load
+			case *ssa.Phi:
+				v = nil
+				for _, e := range x.Edges {
+					if _, isMake := e.(*ssa.MakeMap); !isMake {
+						v = e
+					}
+				}
+			case *ssa.Call:
+				n := ir.CallName(x)
+				if strings.HasSuffix(n, ").Load") && strings.Contains(n, "sync/atomic.") && len(x.Call.Args) > 0 {
+					if fa, ok := x.Call.Args[0].(*ssa.FieldAddr); ok {
+						key, _, _, _ := ir.FullField(fa)
+						return key, true
+					}
+					return "", true
+				}
+				// a library getter that returns the loaded table
+				sc := ir.StaticCallee(x)
+				if sc == nil || !c.P.IsLib(sc) || i > 4 {
+					return "", false
+				}
+				var rv ssa.Value
+				ir.EachInstr(sc, func(b *ssa.BasicBlock, _ int, in ssa.Instruction) {
+					if r, ok := in.(*ssa.Return); ok && b != sc.Recover && len(ir.Results(r)) > 0 {
+						rv = ir.Results(r)[0]
+					}
+				})
+				v = rv
+			default:
+				return "", false
+			}
+		}
+		return "", false
+	}
+	n := 0
+	for _, fn := range c.P.LibFns {
+		cnt := 0
+		ir.EachInstr(fn, func(_ *ssa.BasicBlock, _ int, in ssa.Instruction) {
+			var m ssa.Value
+			what := ""
+			switch x := in.(type) {
+			case *ssa.MapUpdate:
+				m, what = x.Map, "stores into"
+			case *ssa.Call:
+				if b, ok := x.Call.Value.(*ssa.Builtin); ok && b.Name() == "delete" && len(x.Call.Args) == 2 {
+					m, what = x.Call.Args[0], "deletes from"
+				}
+			case *ssa.Lookup:
+				if key, ok := fromLoad(x.X); ok && key != "" {
+					members[key] = true
+				}
+				return
+			}
+			if m == nil {
+				return
+			}
+			key, ok := fromLoad(m)
+			if !ok {
+				return
+			}
+			if key != "" {
+				members[key] = true
+			}
+			n++
+			cnt++
+			c.R.Violate("R-published-immutable", sprintf("%s a published table in %s #%d", what, fname(fn), cnt), c.Pos(in.Pos()),
+				sprintf("%s %s the map it obtained from an atomic Load (%s): readers use that very map without a lock, so this is an unsynchronised map write against their reads (fatal 'concurrent map read and map write'); a copy-on-write table must be copied, changed and stored", fname(fn), what, key))
+		})
+	}
+	if n == 0 {
+		var ks []string
+		for k := range members {
+			ks = append(ks, k)
+		}
+		sort.Strings(ks)
+		c.R.Hold("R-published-immutable", "no map obtained from an atomic Load is changed in place", "", sprintf("copy-on-write tables: %v", ks))
+	}
+	return len(members)
+}
+
+// c12RowsUnconditional (R-rows-unconditional): the rows of a method dispatch table are installed unconditionally. A row
+// that depends on run-time state (a capability flag that is refreshed only at initialize) makes an entry that is
+// registered while the server is serving unreachable: list, read and get answer "method not found".
+func c12RowsUnconditional(c *Ctx) {
+	n := 0
+	for fn, rows := range c.MapLiteralDispatch() {
+		if clientSide(c, fn) {
+			continue
+		}
+		var pd *flow.PostDom
+		for _, r := range rows {
+			if r.At == nil || r.At.Parent() != fn {
+				continue
+			}
+			if pd == nil {
+				pd = flow.NewPostDom(fn)
+			}
+			n++
+			deps := pd.ControlDepsTransitive(r.At.Block())
+			c.R.Check(len(deps) == 0, "R-rows-unconditional", sprintf("row %q of the table built in %s", r.Method, fname(fn)), c.Pos(r.Pos),
+				"installed on every path",
+				sprintf("%s installs the row for %q only on some paths: whether the method is served then depends on run-time state, and an entry registered while serving is answered with 'method not found'", fname(fn), r.Method))
+		}
+	}
+	if n == 0 {
+		c.R.Hold("R-rows-unconditional", "no dispatch table is built from map updates", "", "")
+	}
 }
